@@ -21,3 +21,27 @@ def haversine(lat1, lon1, lat2, lon2, r=6371000.0):
     dphi, dl = a2 - a1, math.radians(lon2 - lon1)
     h = math.sin(dphi / 2) ** 2 + math.cos(a1) * math.cos(a2) * math.sin(dl / 2) ** 2
     return 2 * r * math.asin(min(1.0, math.sqrt(h)))
+
+
+KTS, FT = 0.514444, 0.3048
+rho0 = p0 / (R * T0)
+
+
+def mach2tas(mach, H):
+    return mach * math.sqrt(1.4 * R * atmos(H)[2])
+
+
+def tas2cas(v, H):
+    p, rho, T = atmos(H)
+    qc = p * ((1 + rho * v * v / (7 * p)) ** 3.5 - 1)
+    return math.sqrt(7 * p0 / rho0 * ((qc / p0 + 1) ** (2 / 7.0) - 1))
+
+
+def cas2tas(v, H):
+    p, rho, T = atmos(H)
+    qc = p0 * ((1 + rho0 * v * v / (7 * p0)) ** 3.5 - 1)
+    return math.sqrt(7 * p / rho * ((1 + qc / p) ** (2 / 7.0) - 1))
+
+
+def mach2cas(mach, H):
+    return tas2cas(mach2tas(mach, H), H)
